@@ -75,6 +75,53 @@ def run(ctx, res):
         expect.append(m_out)
         cases.append({'op': 'incline', 'include': target, 'impl': status})
         res.count('include:' + status)
+    # ---- #include from a cart in a SUBFOLDER of the PICO-8 carts folder: the include root is the carts folder, not the cart's directory
+    home = os.path.join(base, 'home2')
+    carts = os.path.join(home, '.lexaloffle', 'pico-8', 'carts')
+    for rel in ('x.lua', 'sub/y.lua', 'sub/deep/z.lua', 'other/x.lua'):
+        I.write(os.path.join(carts, rel), b'inside_%s=1\n' % rel.replace('/', '_').replace('.', '_').encode())
+    for rel in ('secret.lua', 'x.lua', 'y.lua', 'sub/y.lua', 'carts2/x.lua'):          # canaries above / beside the carts folder
+        I.write(os.path.join(carts, '..', rel), b'canary_above=1\n')
+        I.write(os.path.join(home, rel), b'canary_home=1\n')
+    saved_home = os.environ.get('HOME')
+    os.environ['HOME'] = home
+    try:
+        sub_cart = os.path.join(carts, 'sub', 'c.p8')
+        os.makedirs(os.path.dirname(sub_cart), exist_ok=True)
+        tails = ['x.lua', 'y.lua', 'secret.lua', 'sub/y.lua', 'sub/deep/z.lua', 'deep/z.lua', 'other/x.lua', 'carts/x.lua', 'carts/sub/y.lua',
+                 'carts2/x.lua', 'pico-8/carts/x.lua', 'pico-8/secret.lua']
+        incs = sorted({up + mid + t for up in ('', '../', '../../', '../../../', '../../../../') for mid in ('', './', 'deep/../', 'sub/../')
+                       for t in tails})
+        if not ctx.thorough():
+            incs = rng.sample(incs, min(len(incs), 140)) + ['../secret.lua', '../x.lua', 'y.lua', '../../secret.lua', '../../carts/x.lua', '../../carts2/x.lua', 'deep/../../secret.lua']
+        for p_ in incs:
+            I.write(sub_cart, template.replace(b'x=1\n', b'#include ' + p_.encode() + b'\nx=1\n'))
+            with I.Recorder() as rec:
+                try:
+                    gfile.from_file(sub_cart)
+                    status = 'ok'
+                except Exception as e:
+                    status = 'err ' + U.exc_kind(e)
+            res.evaluations += 1
+            res.nontrivial.add(('inc-carts', p_))
+            res.count('include-from-carts-subfolder:' + status)
+            bad = [t for t in rec.touched() if not I.under(t, carts) and t != os.path.normpath(sub_cart)]
+            full = os.path.normpath(os.path.join(os.path.dirname(sub_cart), p_))
+            key = 'C12:include-carts:' + p_
+            if bad:
+                res.fail(key, '#include %s from %s made picotool access %s, outside the include root %s' % (p_, sub_cart, bad[0], carts), {'include': p_, 'cart': 'carts/sub/c.p8'})
+            elif not I.under(full, carts) and status == 'ok':
+                res.fail(key, '#include %s resolves outside the carts folder but was accepted' % p_, {'include': p_, 'cart': 'carts/sub/c.p8'})
+            elif I.under(full, carts) and os.path.isfile(full) and status != 'ok':
+                res.fail(key, '#include %s names a file inside the carts folder but was refused (%s)' % (p_, status), {'include': p_, 'cart': 'carts/sub/c.p8'})
+            lines.append('incline %s %s %s' % (I.hp(carts), I.hp(os.path.dirname(sub_cart)), hx(b'#include ' + p_.encode() + b'\n')))
+            expect.append('err outside-root' if status == 'err outside-root' else 'want')
+            cases.append({'op': 'incline', 'include': p_, 'impl': status, 'from': 'carts/sub'})
+    finally:
+        if saved_home is None:
+            os.environ.pop('HOME', None)
+        else:
+            os.environ['HOME'] = saved_home
     # ---- require()
     main = os.path.join(root, 'main.lua')
     out = os.path.join(base, 'out', 'o.p8')
